@@ -409,6 +409,7 @@ func c15Spaces(thorough bool) []*space {
 		listSpace("oversize/friendly-name", "SearchRes, DescriptionRes and DeviceInformationBlock on its own x name of every length 30..80 x {ASCII, ISO 8859-1 high half, mixed}", nameLengthValues(devKinds, 30, 80)),
 		listSpace("non-latin1/friendly-name", "SearchRes, DescriptionRes and DeviceInformationBlock on its own x name of every length 1..80 with one character outside ISO 8859-1 at the first, middle or last position", nonLatinNameValues(devKinds, 80)),
 		listSpace("search-response-with-further-blocks", "SearchRes x every sequence of 0..3 further description blocks over five shapes (no encoder exists for them: dropped or not, the size must equal the octets written)", searchResBlockValues()),
+		listSpace("description-response-with-data-less-blocks", "DescriptionRes x every sequence of 1..3 further description blocks (six shapes) that contains a block without data (size 2; the decoder drops such a block, so these values are outside C02's round trip)", dataLessBlockValues()),
 		listSpace("sub/DeviceInformationBlock-names", "DeviceInformationBlock on its own x name of every length 0..29 x {ASCII, ISO 8859-1 high half, mixed}", nameLengthValues(devKinds[2:], 0, 29)),
 	)
 	return out
